@@ -213,6 +213,10 @@ class Interp:
             if is_repo_function(init):
                 self.call_repo(init, [obj] + list(args), kwargs)
             return obj
+        d_self = getattr(f, "__self__", None)
+        if isinstance(d_self, dict) and f.__name__ in ("get", "__getitem__", "__contains__", "__setitem__", "setdefault", "clear") \
+                and self.dict_is_symbolic(d_self, *args[:1]):
+            return self.dict_method(d_self, f.__name__, list(args), kwargs)
         if isinstance(getattr(f, "__self__", None), list) and f.__name__ in ("append", "extend", "insert", "reverse", "copy", "clear"):
             return f(*args, **kwargs)
         if f in (enumerate, zip, reversed):      # structural: never look at the elements
@@ -226,6 +230,79 @@ class Interp:
             return f(*args, **kwargs)
         except Exception as e:
             raise PyRaise(e)
+
+    # ---------------- dictionaries with symbolic keys (memo tables keyed by an input)
+    # entries whose key has a symbolic component live in a side list per dict object; a lookup compares the key with
+    # the candidates through the solver (one decision each), so "same key" is decided, not assumed
+    def _symkeys(self, d, create=False):
+        tab = self.__dict__.setdefault("_symdicts", {})
+        ent = tab.get(id(d))
+        if ent is None or ent[0] is not d:
+            if not create: return None
+            ent = (d, []); tab[id(d)] = ent
+        return ent[1]
+
+    def _key_same(self, a, b):
+        """decides (forking if needed) whether two dictionary keys are equal"""
+        if isinstance(a, tuple) or isinstance(b, tuple):
+            if not (isinstance(a, tuple) and isinstance(b, tuple)) or len(a) != len(b): return False
+            return all(self._key_same(x, y) for x, y in zip(a, b))
+        if is_repo_instance(a) or is_repo_instance(b):
+            raise Unsupported("repository object inside a symbolic dictionary key")
+        return self.ctx.truth(self.compare(ast.Eq, a, b))
+
+    def dict_find(self, d, key):
+        """-> (found, value, where) ; where = ('c', key) concrete slot or ('s', index) side-list slot"""
+        pairs = self._symkeys(d)
+        if not self.is_sym(key):
+            try:
+                if key in d: return True, d[key], ("c", key)
+            except TypeError as ex: raise PyRaise(ex)
+            for i, (k, v) in enumerate(pairs or ()):
+                if self._key_same(key, k): return True, v, ("s", i)
+            return False, None, None
+        for k in list(d.keys()):
+            if self._key_same(key, k): return True, d[k], ("c", k)
+        for i, (k, v) in enumerate(pairs or ()):
+            if self._key_same(key, k): return True, v, ("s", i)
+        return False, None, None
+
+    def dict_store(self, d, key, v):
+        found, _, where = self.dict_find(d, key)
+        if found:
+            if where[0] == "c": d[where[1]] = v
+            else: self._symkeys(d)[where[1]][1] = v
+        elif self.is_sym(key):
+            self._symkeys(d, create=True).append([key, v])
+        else:
+            d[key] = v
+
+    def dict_method(self, d, name, args, kwargs):
+        if name == "get":
+            found, v, _ = self.dict_find(d, args[0])
+            return v if found else (args[1] if len(args) > 1 else kwargs.get("default"))
+        if name == "__getitem__":
+            found, v, _ = self.dict_find(d, args[0])
+            if not found: raise PyRaise(KeyError("symbolic key"))
+            return v
+        if name == "__contains__":
+            return self.dict_find(d, args[0])[0]
+        if name == "__setitem__":
+            self.dict_store(d, args[0], args[1]); return None
+        if name == "setdefault":
+            found, v, _ = self.dict_find(d, args[0])
+            if found: return v
+            self.dict_store(d, args[0], args[1] if len(args) > 1 else None)
+            return args[1] if len(args) > 1 else None
+        if name == "clear":
+            d.clear()
+            pairs = self._symkeys(d)
+            if pairs is not None: del pairs[:]
+            return None
+        raise Unsupported("dict.%s with symbolic keys" % name)
+
+    def dict_is_symbolic(self, d, *keys):
+        return isinstance(d, dict) and (any(self.is_sym(k) for k in keys) or bool(self._symkeys(d)))
 
     def is_sym(self, v):
         if isinstance(v, (SymInt, SymBool)): return True
@@ -317,6 +394,9 @@ class Interp:
             if is_repo_instance(obj):
                 self.call(BoundMethod(obj, find_in_mro(type(obj), "__setitem__")), [idx, v], {})
             else:
+                if self.dict_is_symbolic(obj, idx):
+                    self.dict_store(obj, idx, v)
+                    return
                 if self.is_sym(idx): raise Unsupported("symbolic subscript store")
                 try: obj[idx] = v
                 except Exception as e: raise PyRaise(e)
@@ -554,6 +634,9 @@ class Interp:
         ctx = self.ctx
         if op in (ast.Is, ast.IsNot):
             return (l is r) if op is ast.Is else (l is not r)
+        if op in (ast.In, ast.NotIn) and self.dict_is_symbolic(r, l):
+            hit = self.dict_find(r, l)[0]
+            return hit if op is ast.In else (not hit)
         if is_repo_instance(l) and op in (ast.Eq, ast.NotEq):
             m = find_in_mro(type(l), "__eq__")
             v = self.call(BoundMethod(l, m), [r], {})
@@ -596,6 +679,8 @@ class Interp:
         obj = self.ev(e.value, fr); idx = self.ev(e.slice, fr)
         if is_repo_instance(obj):
             return self.call(BoundMethod(obj, find_in_mro(type(obj), "__getitem__")), [idx], {})
+        if self.dict_is_symbolic(obj, idx):
+            return self.dict_method(obj, "__getitem__", [idx], {})
         if self.is_sym(idx): raise Unsupported("symbolic subscript")
         try:
             r = obj[idx]
@@ -675,6 +760,8 @@ def _bitset_iter(I, self_):
 def i_len(I, x):
     if is_repo_instance(x):
         return I.call(BoundMethod(x, find_in_mro(type(x), "__len__")), [], {})
+    if isinstance(x, dict) and I._symkeys(x):
+        return len(x) + len(I._symkeys(x))     # stores decide equality with every present key, so entries are distinct
     return len(x)
 
 def i_int(I, x=0, base=None):
@@ -1001,6 +1088,7 @@ def explore(build, width=256, max_paths=10000, assert_timeout_ms=120000, dump_di
         ctx.prefix = prefix
         I.ctx = ctx
         I.uf_cache = {}
+        I._symdicts = {}
         try:
             res = build(ctx)
         except Infeasible:
